@@ -15,7 +15,7 @@ PROP = {'rule': 'rapid-generated cases. takeCPUs: (topology sockets1-2 x numa1-2
          'have free for this pod) with a victim whose NUMA node list is not {0..k}. '
          'managerHistoryExt also has reservedCPUsChanged (NRT refresh with a different reserved set, possibly over CPUs that pods hold; from '
          'then on no reserved CPU may be handed out or reported available). '
-         'heteroNUMA: 2-4 NUMA nodes reporting different resource sets (cpu everywhere; memory, hugepages-1Gi, example.com/nic on arbitrary '
+         'heteroNUMA: 2-4 NUMA nodes of which any non-empty subset is reported (ascending ids, so list position != NUMA id when a lower id is missing), reporting different resource sets (cpu on every reported node; memory, hugepages-1Gi, example.com/nic on arbitrary '
          'subsets), 1-4 NUMA-only pods allocated+recorded with any hint and requests at/around what the hinted nodes have free; success iff '
          'enough, exact, inside the hint, per node bounded; non-trivial = heterogeneous sets and a hint naming only NUMA nodes that lack a '
          'requested NUMA-managed resource. '
@@ -25,7 +25,7 @@ PROP = {'rule': 'rapid-generated cases. takeCPUs: (topology sockets1-2 x numa1-2
          'pods and NUMA-only pods, requests at/around what a NUMA node has free for the pod), scheduleDesignated (scheduling hint + '
          'resource-status annotation; mostly consistent with the cluster, 1/8 with a held CPU), scheduleReservation (NUMA-only reserve '
          'pod), unreserve, bind (PreBind + informer update), status-only pod update, informer add of an existing annotated pod, pod '
-         'delete / terminated, NodeResourceTopology deleted / reported again; non-trivial = >=3 operations with a reserved designated '
+         'delete (half of them delivered as cache.DeletedFinalStateUnknown tombstone values) / terminated, NodeResourceTopology deleted / reported again; non-trivial = >=3 operations with a reserved designated '
          'allocation, a bind, a cycle with matched AND unmatched reservations, or a pod whose events were dropped without topology and '
          'that a later status-only update recorded. '
          'concurrentFirstTouch: one generated script set (2-8 goroutines x 1-3 ops of record / record+release / release-unknown / read, '
@@ -60,7 +60,7 @@ PROP = {'rule': 'rapid-generated cases. takeCPUs: (topology sockets1-2 x numa1-2
                       {'run': 'TestVerifC06NUMASplit', 'quick': 20000, 'thorough': 200000},
                       {'run': 'TestVerifC06ManagerHistory', 'quick': 3000, 'thorough': 25000, 'steps': 25},
                       {'run': 'TestVerifC06ManagerHistoryExt', 'quick': 3000, 'thorough': 25000, 'steps': 25},
-                      {'run': 'TestVerifC06HeteroNUMA', 'quick': 6000, 'thorough': 50000},
+                      {'run': 'TestVerifC06HeteroNUMA', 'quick': 6000, 'thorough': 20000},
                       {'run': 'TestVerifC06PluginHistory', 'quick': 2500, 'thorough': 8000, 'steps': 20},
                       {'run': 'TestVerifC06ConcurrentFirstTouch', 'quick': 150, 'thorough': 300, 'shards': 2, 'shrinktime': '0s'},
                       {'run': 'FuzzVerifC06NUMASplit', 'fuzz': True, 'rapid': False, 'thorough_only': True, 'fuzztime': '40s'},
